@@ -108,6 +108,7 @@ func c03Ops(s []int) []ref.Op {
 
 func checkC03(c *core.Ctx) {
 	sameOperandSequence(c, "sameoperand", [][]int{{3}, {2, 3}, {2, 1, 3}, {5, 2}}, c03Ops, false)
+	composeCases(c, "compose", composeShapes, consumersElementwise, false)
 	shapes := append(enum.ShapeSet(c.Thorough()), longShapes(c.Thorough())...)
 	unaryOps := []ref.Op{}
 	for _, a := range []float64{-1.5, 0, 2} {
@@ -138,6 +139,25 @@ func checkC03(c *core.Ctx) {
 			op, v := op, v
 			c.Case(fmt.Sprintf("unaryclass/%s/%v", op, v), true, func() core.Verdict {
 				return applyBoth(op, []*ref.T{{Shape: []int{2}, V: []float64{v, 0.75}}}, false)
+			})
+		}
+	}
+	// (b2) unary functions at the edges of the finite range
+	edge := []float64{5e-324, 1e-300, 1e-17, 1e-12, 1e-9, 1 - 1e-16, 1 + 2e-16, 700.5, 709.7, 710, -745, -746, 1e300, -1e300, 1.7e308}
+	for _, op := range unaryOps {
+		for _, v := range edge {
+			op, v := op, v
+			c.Case(fmt.Sprintf("unaryedge/%s/%v", op, v), true, func() core.Verdict {
+				x := &ref.T{Shape: []int{2}, V: []float64{v, 0.75}}
+				exp, _ := ref.Eval(op, []*ref.T{x})
+				got, err := rt.Apply(op, []tensor.Tensor{rt.Make(x, false)})
+				if err != nil {
+					return core.Fail("%s: %v", op, err)
+				}
+				if ok, msg := core.RelClose(rt.Read(got), exp, 1e-12, 0); !ok {
+					return core.Fail("%s(%v): %s", op, v, msg)
+				}
+				return core.Pass()
 			})
 		}
 	}
@@ -291,6 +311,7 @@ func checkEquals(a, b *ref.T) core.Verdict {
 /* ---------------- C04 ---------------- */
 
 func checkC04(c *core.Ctx) {
+	composeCases(c, "compose", composeShapes, consumersLinalg, false)
 	// batch shapes
 	var batches [][]int
 	if c.Thorough() {
@@ -368,7 +389,7 @@ func checkC04(c *core.Ctx) {
 		})
 	}
 	// long inner / outer dimensions
-	for _, mnk := range [][3]int{{1, 40, 1}, {2, 33, 3}, {17, 2, 19}, {9, 9, 9}, {33, 1, 33}, {5, 64, 2}} {
+	for _, mnk := range [][3]int{{1, 40, 1}, {2, 33, 3}, {17, 2, 19}, {9, 9, 9}, {33, 1, 33}, {5, 64, 2}, {20, 24, 10}, {64, 8, 9}, {16, 16, 17}, {3, 40, 40}, {40, 40, 3}, {1, 300, 20}, {130, 3, 2}} {
 		for _, batch := range [][]int{{}, {2}, {3, 1}} {
 			mnk, batch := mnk, batch
 			c.Case(fmt.Sprintf("matmullong/%v/%v", batch, mnk), true, func() core.Verdict {
@@ -637,6 +658,7 @@ func c05SameOperand(c *core.Ctx) {
 
 func checkC05(c *core.Ctx) {
 	c05SameOperand(c)
+	composeCases(c, "compose", composeShapes, consumersReduce, false)
 	kinds := []string{"Sum", "Max", "Min", "Avg", "Var", "Std", "Mean"}
 	global := func(t tensor.Tensor, k string) float64 {
 		switch k {
